@@ -670,8 +670,44 @@ class SymEval:
         return ("closure", n, dict(env))
 
     def e_block(self, n, env):
+        self._blk = getattr(self, "_blk", 0) + 1
+        try:
+            return self._e_block(n, env)
+        finally:
+            self._blk -= 1
+
+    @staticmethod
+    def _guard_return(e):
+        """`if c { return X; }` without else -> (c node, X node)"""
+        from .facts import strip
+        e = strip(e)
+        if e.get("k") != "if" or "e" in e:
+            return None
+        t = strip(e["t"])
+        while t.get("k") == "block" and not t.get("stmts") and t.get("e") is not None:
+            t = strip(t["e"])
+        if t.get("k") == "block" and len(t.get("stmts", [])) == 1 and t.get("e") is None and t["stmts"][0]["k"] != "let":
+            t = strip(t["stmts"][0]["e"])
+        if t.get("k") == "ret" and t.get("e") is not None:
+            return e["c"], t["e"]
+        return None
+
+    def _e_block(self, n, env):
         env = dict(env) if n.get("stmts") else env
-        for s in n.get("stmts", []):
+        stmts = n.get("stmts", [])
+        for i, s in enumerate(stmts):
+            if s["k"] != "let" and self._blk == 1:
+                gr = self._guard_return(s["e"])
+                if gr is not None:
+                    # function-level guard clause: value = if c { X } else { rest of the body }
+                    c = self.eval(gr[0], env)
+                    x = self.eval(gr[1], env)
+                    rest = self._e_block({"k": "block", "stmts": stmts[i + 1:] or [], "e": n.get("e")}, env) if (stmts[i + 1:] or n.get("e") is not None) else ("tuple", [])
+                    if isinstance(c, tuple) and c and c[0] == "bool":
+                        return x if c[1] else rest
+                    if vkey(x) == vkey(rest):
+                        return x
+                    return app("ite", c, x, rest)
             if s["k"] == "let":
                 if "init" in s:
                     self.bind(s["pat"], self.eval(s["init"], env), env)
@@ -756,10 +792,12 @@ class SymEval:
         for p, a in zip(body.params, args):
             self.bind(p, a, e2)
         self.depth += 1
+        saved, self._blk = getattr(self, "_blk", 0), 0
         try:
             return self.eval(body.value, e2)
         finally:
             self.depth -= 1
+            self._blk = saved
 
     def call_opaque(self, path, args):
         base = path.rsplit("::", 1)[-1] if path else "?"
